@@ -1,5 +1,6 @@
 (** C17, translator tie: Blocks.Block as translated from the Go source on this
-    run (Gen_blocks.v; bts.Buffer is the function parameter [bts_Buffer]): the
+    run (Gen_blocks.v; the Buffer interface value is an opaque handle and bts.Buffer is the
+    function parameter [bts_Buffer]): the
     bounds test, the panic on blksInSegm = 0 and the offset handed to the
     storage = [block_off]. *)
 From Coq Require Import List ZArith NArith Lia Bool.
@@ -16,12 +17,12 @@ Definition blk_rel (g : Gen.Blocks) (b : blocks) : Prop :=
   Gen.Blocks_segments g = segments b.
 
 
-Theorem gen_Block_refines : forall (f : Z -> Z -> M (gslice * error)) g b idx h,
+Theorem gen_Block_refines : forall (f : Z -> Z -> Z -> M (gslice * error)) g b idx h,
   blk_rel g b -> geom_ok b -> -9223372036854775808 <= idx < 9223372036854775808 ->
   Gen.Blocks_Block f g idx h =
   if blksInSegm b =? 0 then GoPanic
   else if (segments b <=? Z.quot idx (blksInSegm b)) || (idx <? 0) then Ok ((nil_slice, Err), h)
-  else f (block_off b idx) (blkSize b) h.
+  else f (Gen.Blocks_bts g) (block_off b idx) (blkSize b) h.
 Proof.
   intros f g b idx h (Es & Ei & Eg) (H1 & H2 & H3 & H4 & H5) Hi.
   unfold Gen.Blocks_Block, block_off. rewrite Es, Ei, Eg.
@@ -37,9 +38,9 @@ Qed.
 
 
 Example gen_ex_block :
-  let g := Gen.mk_Blocks 2 16 3 0 48 in
-  let probe := fun (offs size : Z) (h : heap) => Ok ((mkSl 0 offs size size, ENil), h) in
+  let g := Gen.mk_Blocks 2 16 3 0 5 48 in
+  let probe := fun (hd offs size : Z) (h : heap) => Ok ((mkSl 0 offs size size, ENil), h) in
   Gen.Blocks_Block probe g 17 [] = Ok ((mkSl 0 38 2 2, ENil), []) /\
   Gen.Blocks_Block probe g 48 [] = Ok ((nil_slice, Err), []) /\
-  Gen.Blocks_Block probe (Gen.mk_Blocks 2 0 3 0 0) 1 [] = GoPanic.
+  Gen.Blocks_Block probe (Gen.mk_Blocks 2 0 3 0 5 0) 1 [] = GoPanic.
 Proof. vm_compute. repeat split; reflexivity. Qed.
